@@ -330,4 +330,108 @@ Section Ops.
       destruct (N.eqb_spec j i) as [->|Hji]; [rewrite HA1; exact HB2|].
       destruct (N.eqb_spec i j); [congruence|]. destruct (m_get A' j); reflexivity.
   Qed.
+
+  (* ---------- a value changes its size ---------- *)
+  (* index i now holds v'; everything else is as it was; r' is the record of i *)
+  Definition vpost (s : ST) (A : list region) (i : N) (B : list region) (v' : bytes) (s' : ST) (r' : srec) : Prop :=
+    exists A2 B2, tiles s' (A2 ++ (i, v') :: B2) /\
+      r' = {| r_index := i; r_pos := 24 + slen A2; r_size := lenN v' |} /\
+      (forall j, j <> 0 -> j <> i -> m_get (A2 ++ B2) j = m_get (A ++ B) j) /\
+      tx s' = tx s /\ dur (sdata s') = dur (sdata s).
+
+  Lemma frelx_of_tiles s A i v B : tiles s (A ++ (i, v) :: B) -> i <> 0 ->
+    frelx (rtab s) (layout 24 A ++ layout (24 + slen A + lenN (enc (i, v))) B) (fun _ => False).
+  Proof.
+    intros T Hi. destruct (tiles_elim _ _ T) as (_ & _ & [_ TF] & _ & _).
+    split; [|intros q []]. intros q n _. rewrite <- (TF q n). inl. rewrite lenN_enc. cbn [snd].
+    replace (24 + slen A + (16 + lenN v)) with (24 + slen A + 16 + lenN v) by lia. intuition congruence.
+  Qed.
+
+  Lemma cur_split s A i v B : tiles s (A ++ (i, v) :: B) ->
+    cur (sdata s) = (vrec ++ ser A ++ le64 i ++ le64 (lenN v)) ++ v ++ ser B /\
+    lenN (cur (sdata s)) = 24 + slen A + 16 + lenN v + slen B /\
+    length (vrec ++ ser A ++ le64 i ++ le64 (lenN v)) = N.to_nat (24 + slen A + 16).
+  Proof.
+    intros T. destruct (tiles_elim _ _ T) as (Hcur & _).
+    assert (E : cur (sdata s) = (vrec ++ ser A ++ le64 i ++ le64 (lenN v)) ++ v ++ ser B).
+    { rewrite Hcur, ser_app. cbn [ser]. unfold enc. cbn [fst snd]. rewrite <- !app_assoc. reflexivity. }
+    split; [exact E|]. split.
+    - rewrite E, !lenN_app, !lenN_le64, lenN_vrec. unfold slen. lia.
+    - rewrite !app_length, !le64_length. change (length vrec) with 24%nat. unfold slen, lenN. lia.
+  Qed.
+
+  Lemma move_to_end_spec s A i v B new :
+    tiles s (A ++ (i, v) :: B) -> i <> 0 ->
+    wp (move_to_end cdata ops {| r_index := i; r_pos := 24 + slen A; r_size := lenN v |} new) s
+       (vpost s A i B (pad_to v new)) (fun _ _ => False).
+  Proof.
+    intros T Hi. pose proof (tiles_elim _ _ T) as (Hcur & Hlen & [TL TF] & [TW FW] & Hv).
+    destruct (tiles_unique _ _ _ _ _ T Hi) as [HA HB].
+    destruct (cur_split _ _ _ _ _ T) as (Hcur2 & HLEN & HPL).
+    unfold move_to_end. apply wp_bind. unfold read_value, value_start. cbn [r_pos r_size].
+    apply (wp_dread ops CN); [lia|].
+    rewrite Hcur2, bs_read_mid; [|lia|unfold lenN; lia].
+    apply wp_bind, (wp_get_len ops CN). apply wp_bind.
+    replace (lenN v) with (lenN (enc (i, v)) - 16) at 1 by (rewrite lenN_enc; cbn [snd]; lia).
+    apply (free_region_low ops CN s A (enc (i, v)) B (fun _ => False)).
+    { rewrite Hcur, ser_app. reflexivity. }
+    { exact Hlen. }
+    { rewrite lenN_enc. lia. }
+    { exact FW. }
+    { apply frelx_of_tiles; assumption. }
+    { tauto. }
+    intros s1 A' F1 F2 B' X EA EB HF1 HF2 _ Hcur1 HX Hlen1 FW1 [TRf1 _] HR1 Htx1 Hdur1 Hver1.
+    set (L := lenN (cur (sdata s))) in *. set (rg1 := A' ++ (0, X) :: B') in *.
+    assert (HL1 : L = 24 + slen rg1).
+    { rewrite <- Hlen1, Hcur1, lenN_app, lenN_vrec. reflexivity. }
+    apply wp_bind. unfold update_record. cbn [r_index r_pos r_size].
+    apply wp_bind. unfold do_set_pos. apply wp_bind, wp_get_rtab, wp_put_rtab.
+    apply wp_bind. unfold do_set_size. apply wp_bind, wp_get_rtab, wp_put_rtab. st.
+    apply wp_bind. unfold write_record. cbn [r_index r_pos r_size].
+    apply (wp_dwrite ops CN); [st; lia|]. intros _. apply wp_ret.
+    apply wp_bind. unfold append. apply wp_bind, (wp_get_len ops CN). st.
+    assert (HLn : N.to_nat L = length (cur (sdata s1))) by (unfold lenN in Hlen1; lia).
+    assert (Hlen2 : lenN (bs_write (cur (sdata s1)) (N.to_nat L) (le64 i ++ le64 new)) = L + 16).
+    { unfold lenN. rewrite bs_write_length, app_length, !le64_length. unfold lenN in Hlen1. lia. }
+    rewrite Hlen2.
+    apply (wp_dwrite ops CN); [st; rewrite Hlen2; lia|]. intros Hov. st.
+    rewrite (place_end (cur (sdata s1)) (le64 i ++ le64 new) (pad_to v new) (N.to_nat L) (N.to_nat (L + 16)));
+      [|assumption|rewrite app_length, !le64_length; reflexivity|lia].
+    apply wp_ret.
+    destruct (set_pos_spec (rtab s1) i L ltac:(rewrite HR1; exact TW)) as (Hl1 & TWa & Hfa & Hsa & _).
+    destruct (set_size_spec (set_pos (rtab s1) i L) i new TWa) as (Hl2 & TWb & Hfb & Hsb & _).
+    assert (HLi : live_at (recs (rtab s)) i = Some (24 + slen A, lenN v)).
+    { apply TL; [assumption|]. inl. right; left; reflexivity. }
+    exists rg1, []. split.
+    { apply tiles_intro; st.
+      - rewrite Hcur1, ser_app. cbn [ser]. rewrite app_nil_r. unfold enc. cbn [fst snd].
+        rewrite lenN_pad_to, <- !app_assoc. reflexivity.
+      - rewrite !lenN_app, !lenN_le64, lenN_pad_to, Hlen1. fold L. rewrite lenN_pad_to in Hov. lia.
+      - rewrite layout_app. cbn [layout]. rewrite <- HL1, lenN_pad_to. split.
+        + apply (lrel_update (recs (rtab s)) _ (layout 24 (A ++ (i, v) :: B)) _ i (Some (L, new)) Hi TL).
+          * intros k. rewrite Hl2. destruct (N.eqb_spec k i) as [->|Hk].
+            -- rewrite Hl1, N.eqb_refl, HR1, HLi. reflexivity.
+            -- rewrite Hl1. destruct (N.eqb_spec k i); [congruence|]. rewrite HR1. reflexivity.
+          * intros q k n Hk Hki. rewrite in_app_iff. cbn [In]. unfold rg1.
+            rewrite (merge_layout_same A A' F1 B F2 B' X (lenN (enc (i, v))) EA EB HF1 HF2 HX q k n Hk).
+            inl. rewrite lenN_enc. cbn [snd].
+            replace (24 + slen A + (16 + lenN v)) with (24 + slen A + 16 + lenN v) by lia. intuition congruence.
+          * intros q n. rewrite in_app_iff. cbn [In]. unfold rg1.
+            rewrite (merge_layout_same A A' F1 B F2 B' X (lenN (enc (i, v))) EA EB HF1 HF2 HX q i n Hi).
+            rewrite in_app_iff.
+            assert (ZA : ~ In (q, i, n) (layout 24 A)).
+            { intros H. apply layout_In in H. destruct H as (v' & H & _). exact (m_get_none_In _ _ _ v' HA H). }
+            assert (ZB : forall P, ~ In (q, i, n) (layout P B)).
+            { intros P H. apply layout_In in H. destruct H as (v' & H & _). exact (m_get_none_In _ _ _ v' HB H). }
+            pose proof (ZB (24 + slen A + lenN (enc (i, v)))). intuition congruence.
+        + intros q n. rewrite Hfb, Hfa, in_app_iff. cbn [In]. rewrite <- (TRf1 q n ltac:(tauto)). intuition congruence.
+      - split; [exact TWb|]. unfold fwf. rewrite Hfb, Hsb, Hfa, Hsa. exact FW1.
+      - congruence. }
+    split; [rewrite lenN_pad_to; f_equal; exact HL1|].
+    split.
+    { intros j Hj Hji. rewrite app_nil_r. unfold rg1. subst A B. rewrite !m_get_app. cbn [m_get].
+      rewrite (all_free_get F1 j HF1 Hj), (all_free_get F2 j HF2 Hj).
+      destruct (N.eqb_spec 0 j); [congruence|]. destruct (m_get A' j); reflexivity. }
+    split; [exact Htx1|exact Hdur1].
+  Qed.
 End Ops.
